@@ -21,7 +21,7 @@ def instances(tier):
         yield 'window-above-len3', dict(BASE, max_len=3, win_start=9, win_end=12), 'AlphaC04core', None
         yield 'window-below-len3', dict(BASE, max_len=3, win_start=0, win_end=0, fill=7), 'AlphaC04core', None
     else:
-        yield 'len5', dict(BASE, max_len=5), 'AlphaC04', None
+        yield 'core-len5', dict(BASE, max_len=5), 'AlphaC04core', None        # (the full alphabet of 17 letters has 1.4 million programs of five lines: it is covered to four lines below and by the simulation)
         yield 'len4-no-binary', dict(BASE, max_len=4, also_no_binary=True), 'AlphaC04', None
         yield 'predefined-blocks-clash-len3', dict(BASE, max_len=3, pre_data_op='DataClash', pre_data=[('pd1', 6, 85, 3), ('pd2', 8, 51, 2)]), 'AlphaC04core', None
         yield 'sim10', dict(BASE, max_len=10), 'AlphaC04', 'num=30000'
